@@ -53,6 +53,23 @@ theorem foldl_max_mem (l : List Nat) : ∀ init, l.foldl max init = init ∨ l.f
       · left; exact Nat.max_eq_left hle
     · right; exact List.mem_cons_of_mem _ h
 
+theorem sum_sizes_le (defs : Defs) (B : Nat) : ∀ (l : List Nat) (lo : Nat),
+    l.Pairwise (fun a b => off defs a + sz defs a ≤ off defs b) →
+    (∀ d ∈ l, off defs d + sz defs d ≤ B) → (∀ d ∈ l, lo ≤ off defs d) → lo ≤ B →
+    (l.map (sz defs)).sum + lo ≤ B := by
+  intro l
+  induction l with
+  | nil => intro lo _ _ _ h; simpa using h
+  | cons a rest ih =>
+    intro lo hs hB hlo _
+    rw [List.pairwise_cons] at hs
+    have ha := hB a List.mem_cons_self
+    have hla := hlo a List.mem_cons_self
+    have := ih (off defs a + sz defs a) hs.2 (fun d hd => hB d (List.mem_cons_of_mem _ hd))
+      (fun d hd => hs.1 d hd) ha
+    simp only [List.map_cons, List.sum_cons]
+    omega
+
 theorem maxSize_ge {d : Definition} {m : Nat} (h : d.maxSize = some m) {v : List Nat} (hv : v ∈ d.variants)
     {id : Nat} (hid : id ∈ v) : stop d.defs id ≤ m := by
   unfold Definition.maxSize at h
